@@ -93,7 +93,7 @@ def gen_cases(ctx, harness):
         nrand = 30000
     else:
         enum = ["7", "4", "3", "3"]
-        nrand = 300000
+        nrand = 1500000
     r1 = subprocess.run([harness, "gen", "enum"] + enum, capture_output=True, text=True, timeout=600)
     lines = r1.stdout.strip().split("\n")
     nenum = len(lines)
